@@ -536,4 +536,6 @@ func checkC17(c *Check) {
 	}
 	c.Floor("C17.R4:store", nStore, 3)
 	_ = strings.Join
+	c17AssemblyContiguous(c)
+	c17NoPooledReplay(c, sniffTCP)
 }
